@@ -95,14 +95,20 @@ func (h *decHooks) decoderName(fn *ssa.Function) string {
 	}
 	if recv := fn.Signature.Recv(); recv != nil {
 		if types.Identical(recv.Type(), h.bufferT) {
-			return fn.Name()
+			// the operand decoders are the ones the specification's table knows; other methods of the buffer type
+			// are helpers of those and are entered like any function
+			if _, known := decoderKinds[fn.Name()]; known {
+				return fn.Name()
+			}
 		}
 		return ""
 	}
 	if strings.HasSuffix(fn.Name(), "$thunk") || strings.HasSuffix(fn.Name(), "$bound") {
 		if obj, ok := fn.Object().(*types.Func); ok {
 			if sig, ok := obj.Type().(*types.Signature); ok && sig.Recv() != nil && types.Identical(sig.Recv().Type(), h.bufferT) {
-				return obj.Name()
+				if _, known := decoderKinds[obj.Name()]; known {
+					return obj.Name()
+				}
 			}
 		}
 	}
